@@ -46,11 +46,10 @@ Proof. exact history_wf. Qed.
 Print Assumptions C05_reachable_wf.
 
 (* "opening and fully validating any such version succeeds": Dataset::validate (transcribed: validate_dataset)
-   accepts a well formed manifest outside the known-finding class.  _partial: see Proofs_Manifest.v - four
-   side conditions of validate are hypotheses, not proved invariants. *)
+   accepts a well formed manifest.  _partial: see Proofs_Manifest.v - four side conditions of validate are
+   hypotheses, not proved invariants. *)
 Theorem C05_validate_ok_partial : forall m,
   wf_manifest m = true ->
-  Known_C05_validate_rejects_tombstoned_field m = false ->
   forallb (fun f => negb (match fr_files f with [] => true | _ => false end)
                     && forallb (fun d => existsb (fun x => z_mem x (m_schema m)) (df_fields d)) (fr_files f)
                     && Bool.eqb (existsb is_legacy_file (fr_files f)) (forallb is_legacy_file (fr_files f))) (m_fragments m) = true ->
@@ -59,11 +58,12 @@ Theorem C05_validate_ok_partial : forall m,
 Proof. exact validate_dataset_ok_partial. Qed.
 Print Assumptions C05_validate_ok_partial.
 
-(* Known finding validate_rejects_tombstoned_field: a well formed manifest that Dataset::validate rejects *)
-Theorem C05_validate_rejects_tombstoned_field_refuted :
-  exists m, wf_manifest m = true /\ Known_C05_validate_rejects_tombstoned_field m = true /\ validate_dataset m = false.
-Proof. exact validate_rejects_tombstoned_field_refuted. Qed.
-Print Assumptions C05_validate_rejects_tombstoned_field_refuted.
+(* regression of the repaired finding validate_rejects_tombstoned_field (repo commit 77d5a8a): a well formed
+   manifest with a tombstoned field is accepted by validate *)
+Theorem C05_tombstoned_field_validates :
+  wf_manifest tombstone_witness = true /\ existsb has_tombstone (m_fragments tombstone_witness) = true /\ validate_dataset tombstone_witness = true.
+Proof. exact tombstone_witness_validates. Qed.
+Print Assumptions C05_tombstoned_field_validates.
 
 (* Known finding stable_rowids_deferred_remap_unassigned_fragment_ids: the Rewrite arm computes index bitmaps
    from the unassigned id 0 (the result has the single fragment 4, both bitmaps say {0}) *)
@@ -78,15 +78,14 @@ Proof. exact deferred_remap_refuted. Qed.
 Print Assumptions C05_stable_rowids_deferred_remap_unassigned_fragment_ids_refuted.
 
 (* ---------------------------------------------------------------- non-vacuity and unit tests of the Rust suite *)
-Definition file3 (path rows : N) : DataFile := mkDataFile path [0%Z; 1%Z; 2%Z] (2, 0) rows.
-Definition frag_new (path rows : N) : Fragment := mkFragment 0 (Some rows) [file3 path rows] None None None None.
-
 (* a four-version history with stable row ids: create 3 rows, append 2, delete one row of fragment 0 and drop
    fragment 1, then update one row (partial row ids: the moved row keeps id 1, the inserted one gets a new id) *)
 Example C05_history_nonvacuous :
   exists v1 v2 v3 v4, history [v4; v3; v2; v1] /\ m_next_row_id v4 = Some 6
     /\ map fr_row_ids (m_fragments v4) = [Some [0; 1; 2]; Some [1; 5]].
 Proof.
+  pose (file3 := fun path rows : N => mkDataFile path [0%Z; 1%Z; 2%Z] (2, 0) rows).
+  pose (frag_new := fun path rows : N => mkFragment 0 (Some rows) [file3 path rows] None None None None).
   eexists. eexists. eexists. eexists. split.
   - eapply h_commit with (us := true) (sf := None)
       (op := Update [] [mkFragment 0 (Some 3) [file3 1 3] (Some (mkDeletionFile 2 (Some 2) [0; 1])) (Some [0; 1; 2]) (Some [1; 1; 1]) (Some [1; 1; 1])]
